@@ -17,9 +17,18 @@ A witness `w` of `sqrt x` is a number with `0 ≤ w` and `w * w = x`.
   T_C08_arc3_side_partial one direction of the (false) equivalence `0 ≤ test ↔ interior`: an "exterior" decision is always right
   T_C08_arc3_side_counterexample   … an "interior" decision is not (known finding, same as blockMesh)
   T_C08_chord           polyline length ≥ distance of the end points (every point list, every witness list)
-The `acos` step (arc length = radius × angle) is validator-checked only.
+Round 6 (over ℝ, Mathlib's arccos):
+  T_C08_arc3_centre_unique / _circle   the computed centre is the unique circumcentre; for circle points it is the circle's centre
+  T_C08_arc3_length_real   arc_length_3point as modelled (Real.sqrt / clip / Real.arccos, the code's side test) = radius × angle for
+                           circle points at 0 < ψ < θ < 2π, provided θ ≤ π or ψ < π
+  T_C08_arc3_length_real_beyond / _iff   … and r·(2π − θ) ≠ r·θ otherwise: the hypothesis is exactly the complement of the known finding
+  T_C08_specs_real         ArcEdge through the point at θ/2, Angle(θ, axis) for every witness choice, Origin (flatness 1) give the same
+                           third point, the circle's centre and radius, and the length r·θ
+  T_C08_tie_theta_guard / _arc3 / _origin / _valid   the model agrees with guards, constants, defaults regenerated from the source text
 -/
 import CBV.Lemmas.C08
+import CBV.Lemmas.C08Real
+import CBV.Lemmas.C08Tie
 import Mathlib.Tactic.NormNum
 import Mathlib.Algebra.Order.Field.Rat
 import Mathlib.Analysis.SpecialFunctions.Trigonometric.Bounds
@@ -419,6 +428,297 @@ theorem T_C08_arc3_side_counterexample :
       0 ≤ arc3SideTest r1 r2 r3 ∧ ¬ GeomInterior r1 r2 r3 := by
   refine ⟨⟨1, 0, 0⟩, ⟨-3 / 5, 4 / 5, 0⟩, ⟨0, 1, 0⟩, ?_⟩
   norm_num [nsq, dot, cross, arc3SideTest, GeomInterior]
+
+/-! ### round 6: the circumcentre is unique; `arc_length_3point` over ℝ equals radius × angle -/
+
+/-- the centre computed by `arc_length_3point` is *the* circumcentre: any point equidistant from the three points and in their
+    plane is the computed one (so it is the centre of the circle the three points were taken from) -/
+theorem T_C08_arc3_centre_unique (pS pB pE X : Vec K) (hden : arc3Denom pS pB pE ≠ 0)
+    (h1 : nsq (sub X pS) = nsq (sub X pB)) (h2 : nsq (sub X pS) = nsq (sub X pE))
+    (h3 : dot (sub X pS) (cross (sub pB pS) (sub pE pS)) = 0) : X = arc3Centre pS pB pE := by
+  obtain ⟨c1, c2, c3⟩ := T_C08_arc3_centre pS pB pE hden
+  obtain ⟨Cc, hCc⟩ : ∃ Cc, Cc = arc3Centre pS pB pE := ⟨_, rfl⟩
+  rw [← hCc] at c1 c2 c3 ⊢
+  have split : ∀ v : Vec K, dot (sub X Cc) v = dot (sub X pS) v - dot (sub Cc pS) v := by
+    intro v; simp only [dot, sub]; ring
+  have ha : dot (sub X Cc) (sub pB pS) = 0 := by
+    have e1 := nsq_sub_shift X pS pB
+    have e2 := nsq_sub_shift Cc pS pB
+    rw [split]; linarith
+  have hb : dot (sub X Cc) (sub pE pS) = 0 := by
+    have e1 := nsq_sub_shift X pS pE
+    have e2 := nsq_sub_shift Cc pS pE
+    rw [split]; linarith
+  have hn : dot (sub X Cc) (cross (sub pB pS) (sub pE pS)) = 0 := by rw [split, h3, c3]; ring
+  have hp := perp_parallel (sub X Cc) (sub pB pS) (sub pE pS) hb ha
+  rw [hn, ← arc3Denom_eq] at hp
+  have hz : smul (arc3Denom pS pB pE) (sub X Cc) = ⟨0, 0, 0⟩ := by
+    rw [hp]; apply Vec.ext' <;> simp only [smul] <;> ring
+  have hw := smul_eq_zero_vec hden hz
+  have hx := congrArg Vec.x hw
+  have hy := congrArg Vec.y hw
+  have hzz := congrArg Vec.z hw
+  simp only [sub] at hx hy hzz
+  apply Vec.ext' <;> linarith
+
+/-- three points `C + x_i e1 + y_i e2` of one circle about `C` (frame `e1, e2` of its plane) that are not collinear:
+    `arc_length_3point` does not reject them and the centre it computes is `C` -/
+theorem T_C08_arc3_centre_circle {C e1 e2 : Vec K} (hF : Frame e1 e2) (x0 y0 x1 y1 x2 y2 : K)
+    (h01 : x0 * x0 + y0 * y0 = x1 * x1 + y1 * y1) (h02 : x0 * x0 + y0 * y0 = x2 * x2 + y2 * y2)
+    (hD : (x1 - x0) * (y2 - y0) - (y1 - y0) * (x2 - x0) ≠ 0) :
+    arc3Denom (circPt C e1 e2 x0 y0) (circPt C e1 e2 x1 y1) (circPt C e1 e2 x2 y2) ≠ 0 ∧
+    arc3Centre (circPt C e1 e2 x0 y0) (circPt C e1 e2 x1 y1) (circPt C e1 e2 x2 y2) = C := by
+  have hden : arc3Denom (circPt C e1 e2 x0 y0) (circPt C e1 e2 x1 y1) (circPt C e1 e2 x2 y2) ≠ 0 := by
+    rw [arc3Denom_eq, sub_circPt, sub_circPt, cross_comb]
+    unfold nsq
+    rw [dot_smul_n hF]
+    exact mul_self_ne_zero.mpr hD
+  refine ⟨hden, (T_C08_arc3_centre_unique _ _ _ C hden ?_ ?_ ?_).symm⟩
+  · rw [sub_C_circPt, sub_C_circPt, nsq_comb hF, nsq_comb hF]; linear_combination h01
+  · rw [sub_C_circPt, sub_C_circPt, nsq_comb hF, nsq_comb hF]; linear_combination h02
+  · rw [sub_C_circPt, sub_circPt, sub_circPt, cross_comb, dot_comb_smul_n]
+
+example : Frame (⟨1, 0, 0⟩ : Vec Rat) ⟨0, 1, 0⟩ ∧ ((0 - 5 : Rat) * (-5 - 0) - (5 - 0) * (0 - 5) ≠ 0) ∧
+    arc3Centre (circPt (⟨1, 2, 3⟩ : Vec Rat) ⟨1, 0, 0⟩ ⟨0, 1, 0⟩ 5 0) (circPt ⟨1, 2, 3⟩ ⟨1, 0, 0⟩ ⟨0, 1, 0⟩ 0 5)
+      (circPt ⟨1, 2, 3⟩ ⟨1, 0, 0⟩ ⟨0, 1, 0⟩ 0 (-5)) = ⟨1, 2, 3⟩ := by
+  refine ⟨⟨?_, ?_, ?_⟩, ?_, ?_⟩ <;>
+    norm_num [circPt, comb, arc3Centre, arc3Denom, nsq, dot, sub, add, smul, cross, unitVec]
+
+/-- the three circle points at the angles 0 < ψ < θ < 2π are accepted and the computed centre is the circle's -/
+theorem T_C08_arc3_centre_real {C e1 e2 : Vec ℝ} (hF : Frame e1 e2) {r ψ θ : ℝ} (hr : 0 < r)
+    (hψ : 0 < ψ) (hψθ : ψ < θ) (hθ : θ < 2 * Real.pi) :
+    arc3Denom (circAt C e1 e2 r 0) (circAt C e1 e2 r ψ) (circAt C e1 e2 r θ) ≠ 0 ∧
+    arc3Centre (circAt C e1 e2 r 0) (circAt C e1 e2 r ψ) (circAt C e1 e2 r θ) = C := by
+  unfold circAt
+  apply T_C08_arc3_centre_circle hF
+  · linear_combination (r * r) * (Real.cos_sq_add_sin_sq 0) - (r * r) * (Real.cos_sq_add_sin_sq ψ)
+  · linear_combination (r * r) * (Real.cos_sq_add_sin_sq 0) - (r * r) * (Real.cos_sq_add_sin_sq θ)
+  · have hD := circ_D_pos hψ hψθ hθ
+    rw [Real.cos_zero, Real.sin_zero]
+    have : (r * Real.cos ψ - r * 1) * (r * Real.sin θ - r * 0) - (r * Real.sin ψ - r * 0) * (r * Real.cos θ - r * 1)
+        = r * r * ((Real.cos ψ - 1) * Real.sin θ - Real.sin ψ * (Real.cos θ - 1)) := by ring
+    rw [this]
+    exact ne_of_gt (mul_pos (mul_pos hr hr) hD)
+
+/-- **Length = radius × included angle, over ℝ, the `arccos` step included.**  Three points of a circle of radius `r > 0`
+    (centre `C`, any orthonormal frame `e1, e2` of its plane) at the angles `0 < ψ < θ < 2π` — start, third point, end.
+    `arc3LengthR` is the model function `arc3` (same `arc3Centre`, same side test `dot(cross(r1,r2), cross(r1,r3)) < 0`) with
+    `Float.sqrt/clip/acos` read as `Real.sqrt/clipR/Real.arccos`.  It accepts the points (`denom ≠ 0`) and returns `r·θ`,
+    provided `θ ≤ π` or the third point lies before the antipode of the start (`ψ < π`).  That hypothesis is exactly the
+    complement of the known finding's region, see `T_C08_arc3_length_real_beyond`. -/
+theorem T_C08_arc3_length_real {C e1 e2 : Vec ℝ} (hF : Frame e1 e2) {r ψ θ : ℝ} (hr : 0 < r)
+    (hψ : 0 < ψ) (hψθ : ψ < θ) (hθ : θ < 2 * Real.pi) (hside : θ ≤ Real.pi ∨ ψ < Real.pi) :
+    arc3Denom (circAt C e1 e2 r 0) (circAt C e1 e2 r ψ) (circAt C e1 e2 r θ) ≠ 0 ∧
+    arc3LengthR (circAt C e1 e2 r 0) (circAt C e1 e2 r ψ) (circAt C e1 e2 r θ) = r * θ := by
+  obtain ⟨hden, hC⟩ := T_C08_arc3_centre_real (C := C) hF hr hψ hψθ hθ
+  refine ⟨hden, ?_⟩
+  unfold arc3LengthR
+  rw [hC, arc3LengthAt_circle hF hr]
+  have hr4 : 0 < r * r * (r * r) := by positivity
+  by_cases hle : θ ≤ Real.pi
+  · have s1 : 0 < Real.sin ψ := Real.sin_pos_of_pos_of_lt_pi hψ (by linarith)
+    have s2 : 0 ≤ Real.sin θ := Real.sin_nonneg_of_nonneg_of_le_pi (by linarith) hle
+    have : ¬ (r * r * (r * r) * (Real.sin ψ * Real.sin θ) < 0) :=
+      not_lt.mpr (mul_nonneg (le_of_lt hr4) (mul_nonneg (le_of_lt s1) s2))
+    rw [if_neg this, Real.arccos_cos (by linarith) hle]; ring
+  · have hψπ : ψ < Real.pi := hside.resolve_left hle
+    have hgt : Real.pi < θ := not_le.mp hle
+    have s1 : 0 < Real.sin ψ := Real.sin_pos_of_pos_of_lt_pi hψ hψπ
+    have s2 : Real.sin θ < 0 := sin_neg_upper hgt hθ
+    have : r * r * (r * r) * (Real.sin ψ * Real.sin θ) < 0 :=
+      mul_neg_of_pos_of_neg hr4 (mul_neg_of_pos_of_neg s1 s2)
+    rw [if_pos this, arccos_cos_upper (le_of_lt hgt) (le_of_lt hθ)]; ring
+
+/-- non-vacuity: unit circle in the x-y plane, third point at 90°, end at 270° (a major arc; `ψ < π`) -/
+example : Frame (⟨1, 0, 0⟩ : Vec ℝ) ⟨0, 1, 0⟩ ∧ (0 : ℝ) < Real.pi / 2 ∧ Real.pi / 2 < 3 * Real.pi / 2 ∧
+    3 * Real.pi / 2 < 2 * Real.pi ∧ (3 * Real.pi / 2 ≤ Real.pi ∨ Real.pi / 2 < Real.pi) := by
+  have := Real.pi_pos
+  refine ⟨⟨?_, ?_, ?_⟩, by linarith, by linarith, by linarith, Or.inr (by linarith)⟩ <;> norm_num [nsq, dot]
+
+/-- **The hypothesis of `T_C08_arc3_length_real` is necessary** (known finding
+    `arc_length_3point:third-point-between-end-and-antipode`, over ℝ): for a third point at or beyond the antipode of the start
+    (`π ≤ ψ < θ < 2π`) the modelled function returns `r·(2π − θ)`, the length of the *other* arc, which is not `r·θ`.
+    Together: for `0 < ψ < θ < 2π`, `arc3LengthR = r·θ ↔ (θ ≤ π ∨ ψ < π)`. -/
+theorem T_C08_arc3_length_real_beyond {C e1 e2 : Vec ℝ} (hF : Frame e1 e2) {r ψ θ : ℝ} (hr : 0 < r)
+    (hψ : Real.pi ≤ ψ) (hψθ : ψ < θ) (hθ : θ < 2 * Real.pi) :
+    arc3LengthR (circAt C e1 e2 r 0) (circAt C e1 e2 r ψ) (circAt C e1 e2 r θ) = r * (2 * Real.pi - θ) ∧
+    arc3LengthR (circAt C e1 e2 r 0) (circAt C e1 e2 r ψ) (circAt C e1 e2 r θ) ≠ r * θ := by
+  have hπ := Real.pi_pos
+  obtain ⟨_, hC⟩ := T_C08_arc3_centre_real (C := C) hF hr (by linarith) hψθ hθ
+  have key : arc3LengthR (circAt C e1 e2 r 0) (circAt C e1 e2 r ψ) (circAt C e1 e2 r θ) = r * (2 * Real.pi - θ) := by
+    unfold arc3LengthR
+    rw [hC, arc3LengthAt_circle hF hr]
+    have hr4 : 0 < r * r * (r * r) := by positivity
+    have s1 : Real.sin ψ ≤ 0 := sin_nonpos_upper hψ (by linarith)
+    have s2 : Real.sin θ ≤ 0 := sin_nonpos_upper (by linarith) (le_of_lt hθ)
+    have : ¬ (r * r * (r * r) * (Real.sin ψ * Real.sin θ) < 0) :=
+      not_lt.mpr (mul_nonneg (le_of_lt hr4) (mul_nonneg_of_nonpos_of_nonpos s1 s2))
+    rw [if_neg this, arccos_cos_upper (by linarith) (le_of_lt hθ)]; ring
+  refine ⟨key, ?_⟩
+  rw [key]
+  intro h
+  have : 2 * Real.pi - θ = θ := mul_left_cancel₀ (ne_of_gt hr) h
+  linarith
+
+theorem T_C08_arc3_length_real_iff {C e1 e2 : Vec ℝ} (hF : Frame e1 e2) {r ψ θ : ℝ} (hr : 0 < r)
+    (hψ : 0 < ψ) (hψθ : ψ < θ) (hθ : θ < 2 * Real.pi) :
+    arc3LengthR (circAt C e1 e2 r 0) (circAt C e1 e2 r ψ) (circAt C e1 e2 r θ) = r * θ ↔ (θ ≤ Real.pi ∨ ψ < Real.pi) := by
+  constructor
+  · intro h
+    by_contra hn
+    rw [not_or, not_le, not_lt] at hn
+    exact (T_C08_arc3_length_real_beyond (C := C) hF hr hn.2 hψθ hθ).2 h
+  · intro h; exact (T_C08_arc3_length_real hF hr hψ hψθ hθ h).2
+
+/-- the region of the finding is not empty: third point at 225°, end at 270° -/
+example : Real.pi ≤ 5 * Real.pi / 4 ∧ 5 * Real.pi / 4 < 3 * Real.pi / 2 ∧ 3 * Real.pi / 2 < 2 * Real.pi := by
+  have := Real.pi_pos
+  refine ⟨by linarith, by linarith, by linarith⟩
+
+/-- **The three specifications of one arc agree, over ℝ.**  Circle of radius `r > 0` about `C` in the plane of the frame
+    `e1, e2`, end points at the angles 0 and `θ ∈ (0, 2π)`, `M` the circle point at `θ/2`:
+    * `Angle(θ, e1 × e2)`: for **every** choice of the square-root witnesses (the equations the driver checks over ℚ are the
+      hypotheses here), `arc_from_theta` with `(c, s) = (cos θ/2, sin θ/2)` finds the centre `C`, the radius `r`, and writes `M`;
+    * `Origin(C)` with flatness 1 (`θ < π`: the origin specification means the minor arc): `arc_mid` writes `M`;
+    * the classic three-point arc through `M`: `arc_length_3point` (over ℝ) returns `r·θ` — so all three report radius × angle. -/
+theorem T_C08_specs_real {C e1 e2 : Vec ℝ} (hF : Frame e1 e2) {r θ : ℝ} (hr : 0 < r) (h0 : 0 < θ) (h2 : θ < 2 * Real.pi) :
+    (∀ wrm wc wR : ℝ, 0 < wrm →
+        wrm * wrm = nsq (cross (sub (circAt C e1 e2 r θ) (circAt C e1 e2 r 0)) (cross e1 e2)) → 0 ≤ wc →
+        wc * wc = nsq (thetaChord (circAt C e1 e2 r 0) (circAt C e1 e2 r θ) (cross e1 e2)) → 0 ≤ wR →
+        wR * wR = nsq (sub (circAt C e1 e2 r 0) (thetaCentre (circAt C e1 e2 r 0) (circAt C e1 e2 r θ) (cross e1 e2)
+            (Real.cos (θ / 2)) (Real.sin (θ / 2)) wrm wc)) →
+        thetaCentre (circAt C e1 e2 r 0) (circAt C e1 e2 r θ) (cross e1 e2) (Real.cos (θ / 2)) (Real.sin (θ / 2)) wrm wc = C ∧
+        wR = r ∧
+        thetaMid (circAt C e1 e2 r 0) (circAt C e1 e2 r θ) (cross e1 e2) θ (Real.cos (θ / 2)) (Real.sin (θ / 2)) wrm wc wR
+          = circAt C e1 e2 r (θ / 2)) ∧
+    (θ < Real.pi → ∀ wR ws : ℝ, 0 ≤ wR → wR * wR = nsq (sub C (circAt C e1 e2 r 0)) → 0 < ws →
+        ws * ws = nsq (sub (midPoint (circAt C e1 e2 r 0) (circAt C e1 e2 r θ)) C) →
+        arcMid C (circAt C e1 e2 r 0) (circAt C e1 e2 r θ) wR ws = circAt C e1 e2 r (θ / 2)) ∧
+    arc3LengthR (circAt C e1 e2 r 0) (circAt C e1 e2 r (θ / 2)) (circAt C e1 e2 r θ) = r * θ := by
+  obtain ⟨c, hc⟩ : ∃ c, c = Real.cos (θ / 2) := ⟨_, rfl⟩
+  obtain ⟨s, hs⟩ : ∃ s, s = Real.sin (θ / 2) := ⟨_, rfl⟩
+  have hcs : c * c + s * s = 1 := by rw [hc, hs]; linear_combination Real.cos_sq_add_sin_sq (θ / 2)
+  have hs0 : 0 < s := by rw [hs]; exact Real.sin_pos_of_pos_of_lt_pi (by linarith) (by linarith)
+  have hcθ : Real.cos θ = 2 * c * c - 1 := by
+    have := Real.cos_two_mul (θ / 2); rw [show 2 * (θ / 2) = θ by ring] at this; rw [this, hc]; ring
+  have hsθ : Real.sin θ = 2 * s * c := by
+    have := Real.sin_two_mul (θ / 2); rw [show 2 * (θ / 2) = θ by ring] at this; rw [this, hc, hs]
+  have hdp : sub (circAt C e1 e2 r θ) (circAt C e1 e2 r 0) = comb e1 e2 (r * (2 * c * c - 1) - r) (r * (2 * s * c)) := by
+    unfold circAt; rw [sub_circPt, Real.cos_zero, Real.sin_zero, hcθ, hsθ]; congr 1 <;> ring
+  have hk : cross (sub (circAt C e1 e2 r θ) (circAt C e1 e2 r 0)) (cross e1 e2)
+      = comb e1 e2 (r * (2 * s * c)) (-(r * (2 * c * c - 1) - r)) := by rw [hdp, cross_comb_n hF]
+  have hm : midPoint (circAt C e1 e2 r 0) (circAt C e1 e2 r θ) = circPt C e1 e2 (r * c * c) (r * s * c) := by
+    unfold circAt; rw [midPoint_circPt, Real.cos_zero, Real.sin_zero, hcθ, hsθ]; congr 1 <;> ring
+  have hM : circAt C e1 e2 r (θ / 2) = circPt C e1 e2 (r * c) (r * s) := by unfold circAt; rw [hc, hs]
+  have hS : sub (circAt C e1 e2 r 0) C = comb e1 e2 r 0 := by
+    unfold circAt; rw [sub_circPt_C, Real.cos_zero, Real.sin_zero]; congr 1 <;> ring
+  refine ⟨?_, ?_, ?_⟩
+  · intro wrm wc wR hrm0 hrm hc0 hcw hR0 hR
+    rw [← hc, ← hs] at hR ⊢
+    have ha : nsq (cross e1 e2) = 1 := nsq_cross_frame hF
+    have hl : dot (sub (circAt C e1 e2 r θ) (circAt C e1 e2 r 0)) (cross e1 e2) = 0 := by rw [hdp]; exact dot_comb_n _ _ _ _
+    have hcl := theta_centre_closed _ _ _ c s wrm wc ha hl (ne_of_gt hs0) hrm0 hrm hc0 hcw
+    have hmid := (T_C08_theta_mid _ _ _ θ c s wrm wc wR ha hl hcs (Or.inl ⟨h0, hs0⟩) hrm0 hrm hc0 hcw hR0 hR).2.2
+    obtain ⟨q, hq0⟩ : ∃ q, q = c / (2 * s) := ⟨_, rfl⟩
+    have hq : 2 * s * q = c := by rw [hq0]; field_simp
+    obtain ⟨k, hk0⟩ : ∃ k, k = (1 - c) / (2 * s) := ⟨_, rfl⟩
+    have hk2 : 2 * s * k = 1 - c := by rw [hk0]; field_simp
+    rw [← hq0, hk, hm, circPt_sub_smul] at hcl
+    have hX : r * c * c - q * (r * (2 * s * c)) = 0 := by linear_combination (-(r * c)) * hq
+    have hY : r * s * c - q * (-(r * (2 * c * c - 1) - r)) = 0 := by
+      linear_combination (-(r * s)) * hq + (2 * q * r) * hcs
+    rw [hX, hY, circPt_zero] at hcl
+    refine ⟨hcl, ?_, ?_⟩
+    · apply sq_wit_unique hR0 (le_of_lt hr)
+      rw [hR, hcl, hS, nsq_comb hF]; ring
+    · rw [hmid, ← hk0, hk, hm, circPt_add_smul, hM]
+      congr 1
+      · linear_combination (r * c) * hk2
+      · linear_combination (r * s) * hk2 - (2 * k * r) * hcs
+  · intro hlt wR ws hR0 hR hws0 hws
+    have hc0 : 0 < c := by
+      rw [hc]; exact Real.cos_pos_of_mem_Ioo ⟨by linarith, by linarith⟩
+    have hwR : wR = r := by
+      apply sq_wit_unique hR0 (le_of_lt hr)
+      rw [hR]; unfold circAt; rw [sub_C_circPt, nsq_comb hF, Real.cos_zero, Real.sin_zero]; ring
+    have hw : ws = r * c := by
+      apply sq_wit_unique (le_of_lt hws0) (le_of_lt (mul_pos hr hc0))
+      rw [hws, hm, sub_circPt_C, nsq_comb hF]
+      linear_combination (r * r * c * c) * hcs
+    have hne : r * c ≠ 0 := ne_of_gt (mul_pos hr hc0)
+    have hrne : r ≠ 0 := ne_of_gt hr
+    have hcne : c ≠ 0 := ne_of_gt hc0
+    unfold arcMid
+    rw [hm, sub_circPt_C, hM, hwR, hw]
+    apply Vec.ext' <;> simp only [circPt, comb, unitVec, add, smul] <;> field_simp
+  · exact (T_C08_arc3_length_real hF hr (by linarith) (by linarith) h2 (Or.inr (by linarith))).2
+
+/-- non-vacuity of the witness hypotheses: unit circle, θ = π (`(c, s) = (0, 1)`): witnesses 2, 2, 1 -/
+example :
+    let pS : Vec ℝ := circPt ⟨0, 0, 0⟩ ⟨1, 0, 0⟩ ⟨0, 1, 0⟩ 1 0
+    let pE : Vec ℝ := circPt ⟨0, 0, 0⟩ ⟨1, 0, 0⟩ ⟨0, 1, 0⟩ (-1) 0
+    let n : Vec ℝ := cross ⟨1, 0, 0⟩ ⟨0, 1, 0⟩
+    ((2 : ℝ) * 2 = nsq (cross (sub pE pS) n)) ∧ ((2 : ℝ) * 2 = nsq (thetaChord pS pE n)) ∧
+    ((1 : ℝ) * 1 = nsq (sub pS (thetaCentre pS pE n 0 1 2 2))) := by
+  norm_num [circPt, comb, nsq, dot, sub, add, cross, thetaChord, thetaCentre, midPoint, unitVec, smul]
+
+/-! ### round 6: tie to the source text (tables regenerated by `cbv/tables/c08.py` with `ast` on every run) -/
+
+/-- `arc_from_theta`'s guard `if not (0 < abs(angle) < np.pi * 2): raise`: the model's `thetaGuard` is the regenerated chained
+    comparison (operators as they stand in the source now) on the operands `0, abs(angle), 2π`, for every angle -/
+theorem T_C08_tie_theta_guard (θ : Rat) :
+    operandsAt CBV.Gen.c08ThetaCompares 0 = ("0", ["abs(angle)", "np.pi * 2"]) ∧ CBV.Gen.c08ThetaNegated = [true] ∧
+    CBV.Gen.c08ThetaCompares.length = 1 ∧
+    chain (opsAt CBV.Gen.c08ThetaCompares 0) [0, absR θ, twoPiF] = some (thetaGuard θ) := by
+  refine ⟨by decide, by decide, by decide, ?_⟩
+  have h : opsAt CBV.Gen.c08ThetaCompares 0 = ["Lt", "Lt"] := by decide
+  rw [h]
+  simp [chain, cmpOp, thetaGuard]
+
+/-- `arc_length_3point`: the denominator guard `norm(denom) < 1e-18` and the side test `dot(cross(r1,r2), cross(r1,r3)) < 0` are
+    the comparisons of the source (operators and operands), the literals are `1e-18, 0.5, 0.5, -1.0, 1.0, 0, 2` in this order
+    (guard, `fact`, half of `vect_a`, the two clip bounds, the side test, `2π − angle`), and `np.clip` has the bounds the model uses -/
+theorem T_C08_tie_arc3 (x : Rat) :
+    CBV.Gen.c08Arc3Compares.map (fun c => (c.1, c.2.2)) =
+      [("norm(denom)", ["1e-18"]), ("np.dot(np.cross(rad_start, rad_btw), np.cross(rad_start, rad_end))", ["0"])] ∧
+    CBV.Gen.c08Arc3Numbers = [(1, 1000000000000000000), (1, 2), (1, 2), (-1, 1), (1, 1), (0, 1), (2, 1)] ∧
+    CBV.Gen.c08Arc3Clip = [["rad_start.dot(rad_end) / (mag1 * mag3)", "-1.0", "1.0"]] ∧
+    chain (opsAt CBV.Gen.c08Arc3Compares 0) [absR x, mkRat 1 (10 ^ 18)] = some (decide (absR x < mkRat 1 (10 ^ 18))) ∧
+    chain (opsAt CBV.Gen.c08Arc3Compares 1) [x, 0] = some (decide (x < 0)) ∧
+    CBV.Gen.c08LengthCall = [["self.vertex_1.position", "self.third_point.position", "self.vertex_2.position"]] := by
+  refine ⟨by decide, by decide, by decide, ?_, ?_, by decide⟩
+  · have h : opsAt CBV.Gen.c08Arc3Compares 0 = ["Lt"] := by decide
+    rw [h]; simp [chain, cmpOp]
+  · have h : opsAt CBV.Gen.c08Arc3Compares 1 = ["Lt"] := by decide
+    rw [h]; simp [chain, cmpOp]
+
+/-- `arc_from_origin`: `needs_adjust = abs(mag1 - mag3) > constants.TOL`, forced by `r_multiplier != 1`; literals `1.001`, `0.5`,
+    `0.25`, `** 0.5` in source order; defaults `adjust_center=True, r_multiplier=1.0`; one recursion with `adjust_center=False`;
+    the result is `arc_mid(axis, center, p1, p2)` = `divide_arc(…, 1)[0]` with `count + 2` samples and the slice `[1:-1]` -/
+theorem T_C08_tie_origin (m1 m3 mult : Rat) :
+    CBV.Gen.c08OriginCompares.map (fun c => (c.1, c.2.2)) = [("abs(mag1 - mag3)", ["constants.TOL"]), ("r_multiplier", ["1"])] ∧
+    CBV.Gen.c08OriginNumbers = [(1, 1), (1, 2), (1, 1), (1001, 1000), (1, 2), (1, 2), (2, 1), (1, 4), (2, 1), (1, 2), (2, 1)] ∧
+    CBV.Gen.c08OriginDefaults = [("adjust_center", "True"), ("r_multiplier", "1.0")] ∧
+    CBV.Gen.c08OriginRecursion = [["p1", "p3", "new_center", "False"]] ∧
+    CBV.Gen.c08OriginArcMid = [["axis", "center", "edge_point_1", "edge_point_2"]] ∧
+    CBV.Gen.c08ArcMidCall = [["axis", "center", "point_1", "point_2", "1"]] ∧
+    CBV.Gen.c08DivideArcNumbers = [(2, 1), (1, 1), (-1, 1)] ∧
+    chain (opsAt CBV.Gen.c08OriginCompares 0) [absR (m1 - m3), tol] = some (decide (absR (m1 - m3) > tol)) ∧
+    chain (opsAt CBV.Gen.c08OriginCompares 1) [mult, 1] = some (decide (mult ≠ 1)) := by
+  refine ⟨by decide, by decide, by decide, by decide, by decide, by decide, by decide, ?_, ?_⟩
+  · have h : opsAt CBV.Gen.c08OriginCompares 0 = ["Gt"] := by decide
+    rw [h]; simp [chain, cmpOp]
+  · have h : opsAt CBV.Gen.c08OriginCompares 1 = ["NotEq"] := by decide
+    rw [h]; simp [chain, cmpOp]
+
+/-- `ArcEdgeBase.is_valid`: `abs(norm(cross(arm_1, arm_2))) > constants.TOL` — the model's `arcValid` compares the squares with the
+    same operator -/
+theorem T_C08_tie_valid (x : Rat) :
+    CBV.Gen.c08ValidCompares.map (fun c => (c.1, c.2.2)) = [("abs(f.norm(np.cross(arm_1, arm_2)))", ["constants.TOL"])] ∧
+    chain (opsAt CBV.Gen.c08ValidCompares 0) [x, tol * tol] = some (decide (x > tol * tol)) := by
+  refine ⟨by decide, ?_⟩
+  have h : opsAt CBV.Gen.c08ValidCompares 0 = ["Gt"] := by decide
+  rw [h]; simp [chain, cmpOp]
 
 /-! ### every polyline is at least as long as its chord -/
 
